@@ -3,8 +3,9 @@
 #include "../engine/mc.h"
 
 #define PC05 P(0)
+#define PC20 P(1)      /* the converse half of C20: pointers moved only with the library's own functions never abort */
 static const char *w_name = "ptr";
-static unsigned w_prop_bit(const char *id) { return !strcmp(id, "C05") ? PC05 : 0; }
+static unsigned w_prop_bit(const char *id) { return !strcmp(id, "C05") ? PC05 : !strcmp(id, "C20") ? PC20 : 0; }
 
 #define NSP 4
 #define NWP 3
@@ -15,6 +16,8 @@ static cstl_weak_ptr_t WP[NWP];
 static cstl_unique_ptr_t UP[NUP];
 static int MODE;                         /* 0: shared+weak pointers, 1: unique pointers */
 static int NS, NW;
+static int SELFW;                        /* the clear callback lets go of every weak pointer that refers to the allocation being cleared (an object holding a weak pointer to itself) */
+static unsigned selfw_todo[16];
 static char cfgdesc[200];
 
 /* model */
@@ -36,18 +39,20 @@ enum { O_SP_ALLOC = 1, O_SP_ALLOC0, O_SP_SHARE, O_SP_SWAP, O_SP_RESET, O_WP_FROM
 #define OA(o) (((o) >> 8) & 0xff)
 #define OB(o) (((o) >> 16) & 0xff)
 
-enum { K_LAST_OWNER, K_LAST_REF, K_LOCK_OK, K_LOCK_DEAD, K_LOCK_INTO_LAST_OWNER, K_RETARGET_OWNING, K_SHARE_FROM_EMPTY, K_WEAK_OUTLIVES, K_UP_RELEASE, K_UP_RESET_CLR };
+enum { K_LAST_OWNER, K_LAST_REF, K_LOCK_OK, K_LOCK_DEAD, K_LOCK_INTO_LAST_OWNER, K_RETARGET_OWNING, K_SHARE_FROM_EMPTY, K_WEAK_OUTLIVES, K_UP_RELEASE, K_UP_RESET_CLR, K_SELFW };
 static const char *w_counter_names[] = { "last_owner_released", "last_reference_released_bookkeeping_freed", "lock_yields_owner", "lock_on_dead_allocation_fails", "lock_into_the_last_owner_of_the_same_allocation",
-                                          "retarget_of_pointer_that_owns", "share_or_from_with_empty_source", "states_where_weak_outlives_owners", "unique_release", "unique_reset_with_clear", NULL };
+                                          "retarget_of_pointer_that_owns", "share_or_from_with_empty_source", "states_where_weak_outlives_owners", "unique_release", "unique_reset_with_clear", "weak_references_dropped_inside_the_clear_callback", NULL };
 
-static int w_nconfigs(int thorough) { return thorough ? 4 : 3; }
+static int w_nconfigs(int thorough) { return thorough ? 5 : 4; }
 static void w_setup(int cfg, int thorough)
 {
     int i, j, w;
+    SELFW = cfg == (thorough ? 4 : 3);
     MODE = cfg == 1; NS = cfg >= 2 ? 4 : 3; NW = cfg == 3 ? 3 : 2;
+    if (SELFW) { NS = thorough ? 4 : 3; NW = 2; }
     w_nops = 0;
     if (!MODE) {
-        snprintf(cfgdesc, sizeof cfgdesc, "%d shared + %d weak pointer objects, allocations with clear callback, alloc(0), share/lock into occupied pointers", NS, NW);
+        snprintf(cfgdesc, sizeof cfgdesc, "%d shared + %d weak pointer objects, allocations with clear callback%s, alloc(0), share/lock into occupied pointers", NS, NW, SELFW ? " that resets the weak pointers referring to its own allocation" : "");
         for (i = 0; i < NS; i++) { w_ops[w_nops++] = OP(O_SP_ALLOC, i, 0); w_ops[w_nops++] = OP(O_SP_ALLOC0, i, 0); w_ops[w_nops++] = OP(O_SP_RESET, i, 0); }
         w_ops[w_nops++] = OP(O_SP_ALLOC_HUGE, 0, 0); w_ops[w_nops++] = OP(O_SP_ALLOC_HUGE, 1, 0);
         for (i = 0; i < NS; i++) for (j = 0; j < NS; j++) if (i != j) w_ops[w_nops++] = OP(O_SP_SHARE, i, j);
@@ -66,7 +71,7 @@ static void w_init(void)
 {
     int i;
     shim_reset();
-    nAL = 0; memset(AL, 0, sizeof AL); opno = 0;
+    nAL = 0; memset(AL, 0, sizeof AL); opno = 0; memset(selfw_todo, 0, sizeof selfw_todo);
     for (i = 0; i < NSP; i++) { memset(&SP[i], 0xA5, sizeof SP[i]); cstl_shared_ptr_init(&SP[i]); m_sp[i] = -1; }
     for (i = 0; i < NWP; i++) { memset(&WP[i], 0xA5, sizeof WP[i]); cstl_weak_ptr_init(&WP[i]); m_wp[i] = -1; }
     for (i = 0; i < NUP; i++) { memset(&UP[i], 0xA5, sizeof UP[i]); cstl_unique_ptr_init(&UP[i]); m_up[i] = -1; }
@@ -103,6 +108,7 @@ static void cb_clear(void *mem, void *priv)
         if (MODE && priv != (void *)&cookies[AL[a].cookie]) got[ngot - 1].a = -3;
         if (!MODE && priv != NULL) got[ngot - 1].a = -3;
         if (shim_find(mem) == NULL) got[ngot - 1].a = -4;      /* callback on memory that is already freed */
+        if (SELFW && !MODE) { int w; for (w = 0; w < NW; w++) if (selfw_todo[a] & (1u << w)) cstl_weak_ptr_reset(&WP[w]); selfw_todo[a] = 0; }
     }
 }
 /* translate the allocation layer's free events of this operation into the log */
@@ -126,7 +132,12 @@ static void drain_free_events(void)
 static void m_sp_release(int a)          /* one owner of allocation a lets go */
 {
     if (a < 0) return;
-    if (--AL[a].owners == 0) { MC_COUNT(K_LAST_OWNER); if (AL[a].has_clr) expect(E_CLEAR, a); expect(E_FREE_MEM, a); AL[a].mem_live = 0; }
+    if (--AL[a].owners == 0) {
+        MC_COUNT(K_LAST_OWNER); if (AL[a].has_clr) expect(E_CLEAR, a);
+        /* the callback drops the weak references to its own allocation: nothing is freed by that, the owner being reset still pins the bookkeeping */
+        if (SELFW && AL[a].has_clr) { int w; selfw_todo[a] = 0; for (w = 0; w < NW; w++) if (m_wp[w] == a) { selfw_todo[a] |= 1u << w; m_wp[w] = -1; AL[a].weaks--; MC_COUNT(K_SELFW); } }
+        expect(E_FREE_MEM, a); AL[a].mem_live = 0;
+    }
     if (AL[a].owners + AL[a].weaks == 0) { MC_COUNT(K_LAST_REF); expect(E_FREE_BOOK, a); AL[a].book_live = 0; AL[a].born_op = opno; }
 }
 static void m_wp_release(int a)
@@ -236,7 +247,7 @@ static void w_apply(mc_op_t o)
         break;
     }
     }
-    if (ab) { MC_CHECK(PC05, 0, "unexpected %s inside the library on properly handled pointer objects: %s", ab == 3 ? "non-termination (a library call still running after 3 s)" : ab == 2 ? "assertion failure" : "abort()", ab == 2 ? shim_assert_msg : ""); return; }
+    if (ab) { MC_CHECK(PC05 | PC20, 0, "unexpected %s inside the library on properly handled pointer objects: %s", ab == 3 ? "non-termination (a library call still running after 3 s)" : ab == 2 ? "assertion failure" : "abort()", ab == 2 ? shim_assert_msg : ""); return; }
     if (!mc_checking) return;
     drain_free_events();
     /* the events of this one operation -- clear(a), free(memory a), free(bookkeeping a) -- must be exactly the predicted ones, in order */
@@ -265,7 +276,7 @@ static void w_audit(void)
         for (i = 0; i < NS; i++) {
             static void * volatile g; static volatile int u;
             SHIM_CALL(ab, (g = cstl_shared_ptr_get(&SP[i]), u = cstl_shared_ptr_unique(&SP[i])));
-            if (ab) { MC_CHECK(PC05, 0, "get/unique aborted on a properly handled shared pointer"); return; }
+            if (ab) { MC_CHECK(PC05 | PC20, 0, "get/unique aborted on a properly handled shared pointer"); return; }
             if (m_sp[i] < 0) { MC_CHECK(PC05, g == NULL, "shared pointer %d is empty but get() is %p", i, g); MC_CHECK(PC05, u, "unique() of an empty shared pointer is false"); }
             else {
                 a = m_sp[i];
@@ -279,7 +290,7 @@ static void w_audit(void)
         for (i = 0; i < NUP; i++) {
             static void * volatile g;
             SHIM_CALL(ab, g = cstl_unique_ptr_get(&UP[i]));
-            if (ab) { MC_CHECK(PC05, 0, "get aborted on a properly handled unique pointer"); return; }
+            if (ab) { MC_CHECK(PC05 | PC20, 0, "get aborted on a properly handled unique pointer"); return; }
             MC_CHECK(PC05, g == (m_up[i] >= 0 ? AL[m_up[i]].mem : NULL), "unique pointer %d: get() = %p, reference says %p", i, g, m_up[i] >= 0 ? AL[m_up[i]].mem : NULL);
             MC_CHECK(PC05, g == NULL || shim_find(g) != NULL, "unique pointer %d points at freed memory", i);
         }
